@@ -519,7 +519,8 @@ def _matches_field_values(
         (handler.value is None and any(value is not absent for value in values)) or
         (handler.value is filters.PRESENT and any(value is not absent for value in values)) or
         (handler.value is filters.ABSENT and any(value is absent for value in values)) or
-        (callable(handler.value) and any(handler.value(value, **kwargs) for value in values)) or
+        (callable(handler.value) and any(handler.value(None if value is absent else value, **kwargs)
+                                         for value in values)) or
         (any(handler.value == value for value in values))
     )
 
@@ -549,13 +550,13 @@ def _matches_field_changes(
         (handler.old is None) or
         (handler.old is filters.ABSENT and old is absent) or
         (handler.old is filters.PRESENT and old is not absent) or
-        (callable(handler.old) and handler.old(old, **kwargs)) or
+        (callable(handler.old) and handler.old(None if old is absent else old, **kwargs)) or
         (handler.old == old)
     ) and (
         (handler.new is None) or
         (handler.new is filters.ABSENT and new is absent) or
         (handler.new is filters.PRESENT and new is not absent) or
-        (callable(handler.new) and handler.new(new, **kwargs)) or
+        (callable(handler.new) and handler.new(None if new is absent else new, **kwargs)) or
         (handler.new == new)
     ))
 
